@@ -558,7 +558,7 @@ class DatasetFactory(Generic[A]):
     ) -> "DatasetFactory":
         return DatasetFactory(
             effects=[*self.effects, *(effects or [])],
-            cache=cache or self.cache,
+            cache=cache if cache is not None else self.cache,
             dispatch=dispatch or self.dispatch,
             defaults={**self.defaults, **(defaults or {})},
             abstract=abstract if abstract is not None else self.abstract,
